@@ -304,7 +304,7 @@ class Ctx:
         self.pc.append(f)
         # path feasibility is decided on the quantifier-free part of the path condition only (an over-approximation:
         # a spuriously feasible path merely produces obligations with inconsistent hypotheses)
-        if not _has_quantifier(f):
+        if not _has_quantifier(f) and not _mentions_root(f):
             self.solver.add(f)
 
     def feasible(self, extra=None):
@@ -372,6 +372,11 @@ class Ctx:
     # ---- obligations
     def oblige(self, name, goal, kind='post', lineno=None, assume_after=True, pivots=None, ground_only=False):
         goal = b2z(goal)
+        if self.engine.skip_obligations:
+            # bounded-execution jobs: obligations of the executed code are proved elsewhere (their own contracts); here they
+            # are only assumed so that execution can proceed
+            self.assume(goal)
+            return None
         plain_goal = goal
         hook = self.state.get('oblige_hook')
         if hook is not None and not ground_only:
@@ -410,6 +415,29 @@ def _has_quantifier(e):
         if z3.is_quantifier(x):
             return True
         if z3.is_app(x):
+            stack.extend(x.children())
+    return False
+
+
+def _mentions_root(e):
+    """Defining constraints of square roots (s >= 0 and s*s == x) are nonlinear and irrelevant for path feasibility."""
+    stack = [e]
+    seen = set()
+    while stack:
+        x = stack.pop()
+        if x.get_id() in seen:
+            continue
+        seen.add(x.get_id())
+        if z3.is_const(x) and x.decl().kind() == z3.Z3_OP_UNINTERPRETED:
+            nm = str(x.decl().name())
+            if nm.startswith('sqrt!') or nm.startswith('tsqrt!'):
+                return True
+        elif z3.is_app(x):
+            k = x.decl().kind()
+            if k == z3.Z3_OP_MUL and sum(1 for c in x.children() if not (z3.is_rational_value(c) or z3.is_int_value(c))) >= 2:
+                return True     # nonlinear product: irrelevant for (and very costly in) path-feasibility queries
+            if k in (z3.Z3_OP_DIV, z3.Z3_OP_POWER) and not z3.is_rational_value(x.arg(1)) and not z3.is_int_value(x.arg(1)):
+                return True
             stack.extend(x.children())
     return False
 
@@ -479,6 +507,7 @@ class Engine:
         self.hooks = {}           # misc extension points: 'getattr', 'setattr', 'binop', 'call', 'truthy', 'pow'
         self.max_depth = 40
         self._ob_cache = {}
+        self.skip_obligations = False
         self.finite_scope = None   # dict(K=..., funs=[(f, body)...]) enables the exact finite-scope refuter for heap VCs
         self.verifying = None
         self.dropped = {'docstrings': 0, 'warnings.warn': 0, 'fstrings': 0}
@@ -974,6 +1003,14 @@ class Engine:
                 sup = getattr(obj.obj, '__pyvc_super__', None)
                 if sup is not None:
                     return sup(self, obj.cls, name, cx, lineno)
+                store = self._dict_store(obj.obj)
+                if store is not None and name in ('__setitem__', '__getitem__', '__delitem__', '__contains__', '__len__'):
+                    eng = self
+                    ops = {'__setitem__': lambda k, v: store.__setitem__(eng._dkey(k), v),
+                           '__getitem__': lambda k: store[eng._dkey(k)],
+                           '__delitem__': lambda k: store.__delitem__(eng._dkey(k)),
+                           '__contains__': lambda k: eng._dkey(k) in store, '__len__': lambda: len(store)}
+                    return ExternFunc('dict.' + name, ops[name])
                 if name == '__init__':
                     return ExternFunc('object.__init__', lambda *a, **k: None)
                 raise PyExc('AttributeError', f'super has no attribute {name}', lineno)
@@ -1034,6 +1071,23 @@ class Engine:
         raise Unsupported(f'setattr {name} on {obj!r} (line {lineno})')
 
     # ------------------------------------------------------------ items
+    @staticmethod
+    def _dkey(key):
+        """Dictionary keys: a reference with a concrete value is hashable by that value."""
+        if isinstance(key, SymRef):
+            e = z3.simplify(key.e)
+            if z3.is_int_value(e):
+                return ('ref', key.kind, e.as_long())
+            raise Unsupported('symbolic reference used as a dictionary key')
+        return key
+
+    @staticmethod
+    def _dict_store(obj):
+        """Backing store of an object whose class derives from the builtin dict (e.g. _LRUDict)."""
+        if isinstance(obj, ObjVal) and any(getattr(b, 'name', None) == 'dict' for c in obj.cls.mro for b in c.bases):
+            return obj.fields.setdefault('__dict_store__', {})
+        return None
+
     def get_item(self, obj, key, cx, lineno):
         if isinstance(obj, (list, tuple, str)):
             if isinstance(key, SV):
@@ -1042,11 +1096,15 @@ class Engine:
                 return obj[key]
             except IndexError:
                 raise PyExc('IndexError', 'index out of range', lineno)
+        store = self._dict_store(obj)
+        if store is not None and obj.cls.lookup('__getitem__')[1] is None:
+            obj = store
         if isinstance(obj, dict):
             if isinstance(key, (SV, SB)):
                 raise Unsupported(f'symbolic key into concrete dict (line {lineno})')
             if hasattr(key, '__pyvc_dictkey__'):
                 return key.__pyvc_dictkey__(self, obj, cx, lineno)
+            key = self._dkey(key)
             try:
                 return obj[key]
             except KeyError:
@@ -1066,7 +1124,7 @@ class Engine:
             obj[key] = v
             return
         if isinstance(obj, dict):
-            obj[key] = v
+            obj[self._dkey(key)] = v
             return
         if hasattr(obj, '__pyvc_setitem__'):
             return obj.__pyvc_setitem__(self, key, v, cx, lineno)
@@ -1077,9 +1135,12 @@ class Engine:
         raise Unsupported(f'item assignment on {obj!r} (line {lineno})')
 
     def del_item(self, obj, key, cx, lineno):
+        store = self._dict_store(obj)
+        if store is not None and obj.cls.lookup('__delitem__')[1] is None:
+            obj = store
         if isinstance(obj, (list, dict)):
             try:
-                del obj[key]
+                del obj[self._dkey(key) if isinstance(obj, dict) else key]
             except (KeyError, IndexError):
                 raise PyExc('KeyError', repr(key), lineno)
             return
@@ -1356,7 +1417,11 @@ class Engine:
                 elif self.truthy(r):
                     return True
             return acc
+        store = self._dict_store(container)
+        if store is not None and container.cls.lookup('__contains__')[1] is None:
+            container = store
         if isinstance(container, dict):
+            item = self._dkey(item)
             if isinstance(item, (SV, SB)):
                 raise Unsupported('symbolic key membership in concrete dict')
             if hasattr(item, '__pyvc_in__'):
